@@ -1080,6 +1080,15 @@ pub(crate) mod kani_verif {
         }
     }
 
+    /// Stand-in for `append_chunk` (the second and later 64 kByte chunks of
+    /// `read_large_vec`): asserts that it is never reached, which holds
+    /// because the inputs of the harnesses are shorter than one chunk. CBMC
+    /// does not finish on `Vec::extend_from_slice` over buffers of symbolic
+    /// size.
+    pub fn append_not_reached(_target: &mut Vec<u8>, _chunk: &[u8]) {
+        assert!(false, "a second chunk for less than 64 kBytes of input");
+    }
+
     //------------ Length-prefixed types: any length field -------------------
     //
     // Every value of the length field, every input of up to 13 (17) bytes:
@@ -1090,6 +1099,7 @@ pub(crate) mod kani_verif {
     #[kani::unwind(3)]
     #[kani::stub(alloc::fmt::format, no_format)]
     #[kani::stub(<bytes::Bytes as std::ops::Drop>::drop, bytes_no_drop)]
+    #[kani::stub(append_chunk, append_not_reached)]
     fn decode_rsync_uri_any_length_field() {
         let mut buf = [0u8; 17];
         let data = any_input(&mut buf);
@@ -1104,6 +1114,7 @@ pub(crate) mod kani_verif {
     #[kani::unwind(3)]
     #[kani::stub(alloc::fmt::format, no_format)]
     #[kani::stub(<bytes::Bytes as std::ops::Drop>::drop, bytes_no_drop)]
+    #[kani::stub(append_chunk, append_not_reached)]
     fn decode_https_uri_any_length_field() {
         let mut buf = [0u8; 17];
         let data = any_input(&mut buf);
@@ -1117,6 +1128,7 @@ pub(crate) mod kani_verif {
     #[kani::unwind(3)]
     #[kani::stub(alloc::fmt::format, no_format)]
     #[kani::stub(<bytes::Bytes as std::ops::Drop>::drop, bytes_no_drop)]
+    #[kani::stub(append_chunk, append_not_reached)]
     fn decode_opt_https_uri_any_length_field() {
         let mut buf = [0u8; 17];
         let data = any_input(&mut buf);
@@ -1129,6 +1141,7 @@ pub(crate) mod kani_verif {
     #[kani::proof]
     #[kani::unwind(3)]
     #[kani::stub(<bytes::Bytes as std::ops::Drop>::drop, bytes_no_drop)]
+    #[kani::stub(append_chunk, append_not_reached)]
     fn decode_bytes_any_length_field() {
         let mut buf = [0u8; 13];
         let data = any_input(&mut buf);
@@ -1143,6 +1156,7 @@ pub(crate) mod kani_verif {
     #[kani::proof]
     #[kani::unwind(3)]
     #[kani::stub(<bytes::Bytes as std::ops::Drop>::drop, bytes_no_drop)]
+    #[kani::stub(append_chunk, append_not_reached)]
     fn decode_opt_bytes_any_length_field() {
         let mut buf = [0u8; 13];
         let data = any_input(&mut buf);
